@@ -322,6 +322,192 @@ func shiftedProof(r *hx.Rng, pk vrf.VRFPublicKey, sk vrf.VRFPrivateKey, m []byte
 	return nil, false
 }
 
+// ---- purity: prove/verify must be functions of the VALUES of key, message and proof ----
+// The calls below reuse the same backing arrays across consecutive calls (flip a bit in place, call
+// again, flip back; overwrite the message buffer with another message) and interleave keys. Every
+// expectation is fixed BEFORE any buffer is reused: reference proofs are generated from slices that
+// are never written to afterwards, acceptance/rejection is what the model says (honest proof of the
+// current content: accept; anything else: reject). Comparing with a call on a fresh copy made at the
+// same moment would not do: state keyed on a caller's buffer answers the copy wrongly as well.
+func clone(b []byte) []byte { return append([]byte{}, b...) }
+
+type pureSeq struct {
+	steps []string
+	in    map[string]interface{}
+}
+
+func (q *pureSeq) step(f string, a ...interface{}) { q.steps = append(q.steps, fmt.Sprintf(f, a...)) }
+func (q *pureSeq) fail(key, what string) {
+	in := map[string]interface{}{}
+	for k, v := range q.in {
+		in[k] = v
+	}
+	n := len(q.steps)
+	from := 0
+	if n > 12 {
+		from = n - 12
+	}
+	in["call_sequence_tail"] = append([]string{}, q.steps[from:]...)
+	in["calls_so_far"] = n
+	res.Violate(key, what, in)
+}
+
+func proveGuard(pk vrf.VRFPublicKey, sk vrf.VRFPrivateKey, m []byte) (pi []byte) {
+	defer func() {
+		if r := recover(); r != nil {
+			pi = nil
+		}
+	}()
+	p, err := vrf.VRFGenProve(pk, sk, m)
+	if err != nil {
+		return nil
+	}
+	return p
+}
+
+// one key: reference material from immutable slices, then the aliased sequences
+func pureCase(r *hx.Rng, i int, pk vrf.VRFPublicKey, sk vrf.VRFPrivateKey, ppk vrf.VRFPublicKey, psk vrf.VRFPrivateKey, full bool) int {
+	calls := 0
+	L := 32
+	if r.Intn(4) == 0 {
+		L = 1 + r.Intn(64)
+	}
+	m1 := r.Bytes(L)
+	m2 := flip(m1, r.Intn(8*L)) // one bit away from m1
+	m3 := r.Bytes(L)
+	for bytes.Equal(m3, m1) || bytes.Equal(m3, m2) {
+		m3 = append(m3, byte(r.Intn(256)))[1:]
+	}
+	pk0, sk0 := clone(pk), clone(sk)
+	ref := func(k vrf.VRFPublicKey, s vrf.VRFPrivateKey, m []byte) []byte { calls++; return proveGuard(clone(k), clone(s), clone(m)) }
+	ref1, ref2, ref3 := ref(pk, sk, m1), ref(pk, sk, m2), ref(pk, sk, m3)
+	pref1, pref3 := ref(ppk, psk, m1), ref(ppk, psk, m3) // the previous key on the same messages
+	q := &pureSeq{in: map[string]interface{}{"pk": hexs(pk), "sk_seed": hexs(sk[:32]), "other_pk": hexs(ppk), "other_sk_seed": hexs(psk[:32]),
+		"m1": hexs(m1), "m2": hexs(m2), "m3": hexs(m3), "ref_proof_m1": hexs(ref1), "ref_proof_m2": hexs(ref2), "ref_proof_m3": hexs(ref3)}}
+	if ref1 == nil || ref2 == nil || ref3 == nil || pref1 == nil || pref3 == nil {
+		q.fail("C16/complete:prove-failed", "VRFGenProve failed on a fresh message")
+		res.Count("pure:prove-failed", id([]byte("P"), pk, m1), false)
+		return calls
+	}
+	name := map[string][]byte{"m1": m1, "m2": m2, "m3": m3}
+	expectV := func(what string, k vrf.VRFPublicKey, pi, m []byte, want bool, keyAccept, keyReject string) {
+		calls++
+		cl := verifyClass(k, vrf.VRFProve(pi), m)
+		q.step("VRFVerify(%s) -> %s (expected %s)", what, cl, map[bool]string{true: "accept", false: "reject"}[want])
+		if want && cl != "accept" {
+			q.fail(keyReject, "the honest proof of the message now in the buffer is not accepted ("+cl+") after the buffer was reused: "+what)
+		} else if !want && cl == "accept" {
+			q.fail(keyAccept, "a proof is accepted for content it was not made for after a buffer was changed in place: "+what)
+		} else if cl == "panic" {
+			q.fail("C16/mutation-panic:in-place", "VRFVerify panicked: "+what)
+		}
+	}
+	expectP := func(what string, m, want []byte) {
+		calls++
+		got := proveGuard(pk, sk, m)
+		q.step("VRFGenProve(%s) -> %s", what, hexs(got)[:min(16, 2*len(got))])
+		if !bytes.Equal(got, want) {
+			q.fail("C16/deterministic:prove-reused-message-buffer",
+				fmt.Sprintf("VRFGenProve on a reused buffer returned %s, the proof generated for the same bytes from a fresh slice was %s: %s", hexs(got), hexs(want), what))
+		}
+	}
+
+	// (b) one message buffer, overwritten in place, varying order of prove/verify and of keys
+	buf := clone(m1)
+	q.step("buf := copy(m1)")
+	expectP("buf=m1", buf, ref1)
+	for _, nm := range []string{"m2", "m1", "m3", "m2", "m1"} {
+		copy(buf, name[nm])
+		q.step("copy(buf, %s)  // same backing array", nm)
+		want := map[string][]byte{"m1": ref1, "m2": ref2, "m3": ref3}[nm]
+		if r.Intn(2) == 0 {
+			expectP("buf="+nm, buf, want)
+			expectV("pk, ref("+nm+"), buf="+nm, pk, want, buf, true, "", "C16/complete:verify-reused-message-buffer")
+		} else {
+			expectV("pk, ref("+nm+"), buf="+nm, pk, want, buf, true, "", "C16/complete:verify-reused-message-buffer")
+			expectP("buf="+nm, buf, want)
+		}
+		other := ref1
+		if nm == "m1" {
+			other = ref2
+		}
+		expectV("pk, ref(other message), buf="+nm, pk, other, buf, false, "C16/mutation-accepted:message-in-place", "")
+	}
+	// verify after unrelated verifies: two keys sharing the buffer
+	copy(buf, m3)
+	q.step("copy(buf, m3)")
+	expectV("other_pk, other_ref(m3), buf=m3", ppk, pref3, buf, true, "", "C16/complete:verify-reused-message-buffer")
+	expectV("pk, ref(m3), buf=m3", pk, ref3, buf, true, "", "C16/complete:verify-reused-message-buffer")
+	expectV("other_pk, ref(m3) of pk, buf=m3", ppk, ref3, buf, false, "C16/mutation-accepted:pubkey-in-place", "")
+	copy(buf, m1)
+	q.step("copy(buf, m1)")
+	expectV("other_pk, other_ref(m1), buf=m1", ppk, pref1, buf, true, "", "C16/complete:verify-reused-message-buffer")
+	expectV("other_pk, other_ref(m3), buf=m1", ppk, pref3, buf, false, "C16/mutation-accepted:message-in-place", "")
+	expectV("pk, ref(m1), buf=m1", pk, ref1, buf, true, "", "C16/complete:verify-reused-message-buffer")
+
+	// (a) in-place single-bit sweeps: message, proof, public key
+	sweep := func(part string, target []byte, bits []int, call func() (string, bool)) {
+		for n, b := range bits {
+			target[b/8] ^= 1 << uint(b%8)
+			q.step("%s[bit %d] flipped in place", part, b)
+			calls++
+			cl, _ := call()
+			q.step("VRFVerify -> %s (expected reject)", cl)
+			if cl == "accept" {
+				q.in["bit"] = b
+				q.fail("C16/mutation-accepted:"+part+"-in-place", "a single-bit mutant made in place (same backing array as the previous call) verifies")
+			} else if cl == "panic" {
+				q.fail("C16/mutation-panic:"+part+"-in-place", "VRFVerify panicked on an in-place mutant")
+			}
+			target[b/8] ^= 1 << uint(b%8)
+			q.step("%s[bit %d] flipped back", part, b)
+			if n%4 == 0 {
+				calls++
+				if cl, _ := call(); cl != "accept" {
+					q.step("VRFVerify -> %s (expected accept)", cl)
+					q.in["bit"] = b
+					q.fail("C16/complete:verify-after-restore:"+part, "the honest proof is not accepted ("+cl+") after the buffer was restored in place")
+				}
+			}
+		}
+	}
+	pick := func(n, k int) []int {
+		if full {
+			return allBits(n)
+		}
+		return someBits(r, n, k)
+	}
+	pbuf, kbuf := clone(ref1), clone(pk)
+	sweep("message", buf, pick(8*L, 28), func() (string, bool) { return verifyClass(pk, ref1, buf), true })
+	sweep("proof", pbuf, append(pick(640, 20), 255, 256, 383, 384, 639), func() (string, bool) { return verifyClass(pk, pbuf, buf), true })
+	sweep("pubkey", kbuf, append(pick(256, 10), 255), func() (string, bool) { return verifyClass(kbuf, ref1, buf), true })
+	// all three changed in place at once, then restored
+	bm, bp := r.Intn(8*L), r.Intn(640)
+	buf[bm/8] ^= 1 << uint(bm%8)
+	pbuf[bp/8] ^= 1 << uint(bp%8)
+	q.step("message bit %d and proof bit %d flipped in place", bm, bp)
+	expectV("pk, pbuf, buf (both mutated)", pk, pbuf, buf, false, "C16/mutation-accepted:message-in-place", "")
+	buf[bm/8] ^= 1 << uint(bm%8)
+	pbuf[bp/8] ^= 1 << uint(bp%8)
+	q.step("both flipped back")
+	expectV("pk, pbuf, buf (restored)", pk, pbuf, buf, true, "", "C16/complete:verify-after-restore:message")
+	expectP("buf=m1 (restored)", buf, ref1)
+
+	// the calls must not write to their arguments
+	if !bytes.Equal(pk, pk0) || !bytes.Equal(sk, sk0) || !bytes.Equal(buf, m1) || !bytes.Equal(pbuf, ref1) || !bytes.Equal(kbuf, pk0) {
+		q.fail("C16/pure:argument-modified", "VRFGenProve/VRFVerify changed one of their arguments")
+	}
+	cls := "pure:in-place+reordered"
+	if full {
+		cls = "pure:in-place-all-bits+reordered"
+	}
+	res.Count(cls, id([]byte("P"), pk, m1, m3), true)
+	if i == 0 {
+		res.Sample(map[string]interface{}{"kind": "pure", "calls": calls, "in": q.in, "last_calls": q.steps[len(q.steps)-6:]})
+	}
+	return calls
+}
+
 // ---- the qualification grid ----
 func exactQn(v *big.Int, h, wm, ts uint64, thr uint64) (ok bool, qn int64, nearBelow bool) {
 	// independent exact-arithmetic evaluation of the rule (big.Int only); qn = -1: division by zero,
@@ -466,7 +652,8 @@ func main() {
 	res = hx.NewResult("a VRF case counts when the honest proof verified and its mutants were evaluated; a transport case counts when " +
 		"the proof encoding starts with >= 1 zero byte; an adversarial case counts when a shifted proof was built; a qn case counts when " +
 		"validateProve accepted or panicked; an isCanonical case counts when the input is a non-reduced encoding; a scalar case counts when " +
-		"s = (c*x+k) mod ell was compared for an honest proof and s + j*ell was submitted to VRFVerify")
+		"s = (c*x+k) mod ell was compared for an honest proof and s + j*ell was submitted to VRFVerify; a purity case counts when the in-place/reordered " +
+		"call sequence of one key was run to the end")
 	cs = hx.NewCases(a.Out, "From V.C16 Require Import Model Harness.", "case", "check", 300)
 
 	// real configuration: dev chain config, consensus parameters through InitParam
@@ -632,6 +819,20 @@ func main() {
 			}
 		}
 	}
+
+	// ---------- 4b. purity under buffer reuse and call reordering ----------
+	t0 = time.Now()
+	npure, nfull := 40, 2
+	if thorough {
+		npure, nfull = 500, 25
+	}
+	pcalls := 0
+	for i := 0; i < npure && i+1 < len(keys); i++ {
+		k, pk2 := keys[i+1], keys[i]
+		pcalls += pureCase(r, i, k.pk, k.sk, pk2.pk, pk2.sk, i < nfull)
+	}
+	res.Note(fmt.Sprintf("purity: %d prove/verify calls on reused buffers (in-place bit flips of message/proof/public key, message buffer overwritten, interleaved keys) "+
+		"against references fixed beforehand, %d keys, %d with all bits (%.1fs)", pcalls, min(npure, len(keys)-1), min(nfull, npure), time.Since(t0).Seconds()))
 
 	// ---------- 5. qualification rule over a stake x height x value grid ----------
 	maxqn := int64(model.Param.MaxQN)
